@@ -1,6 +1,7 @@
 package sim
 
 import (
+	"encoding/binary"
 	"encoding/json"
 	"fmt"
 	"os"
@@ -12,8 +13,41 @@ import (
 	"strconv"
 	"strings"
 	"sync"
+	"sync/atomic"
 	"time"
 )
+
+// hangTimeout is how long one execution of one script may take before the
+// worker declares a hang.  The slowest legitimate run (a C15 run with several
+// hundred faulted HTML renders) takes about two seconds.
+const hangTimeout = 40 * time.Second
+
+// timedEngine wraps an engine so that every Exec is visible to the watchdog.
+type timedEngine struct {
+	Engine
+	exec func(s *Script, keepLog bool) *Result
+}
+
+func (t timedEngine) Exec(s *Script, keepLog bool) *Result { return t.exec(s, keepLog) }
+
+// Unwrap lets optional interfaces of the wrapped engine be found.
+func (t timedEngine) Unwrap() Engine { return t.Engine }
+
+func asPinner(e Engine) (Pinner, bool) {
+	if u, ok := e.(interface{ Unwrap() Engine }); ok {
+		e = u.Unwrap()
+	}
+	p, ok := e.(Pinner)
+	return p, ok
+}
+
+func isProcessStateful(e Engine) bool {
+	if u, ok := e.(interface{ Unwrap() Engine }); ok {
+		e = u.Unwrap()
+	}
+	ps, ok := e.(ProcessStateful)
+	return ok && ps.ProcessStateful()
+}
 
 const bitmapBits = 1 << 24
 
@@ -53,7 +87,34 @@ func RunWorker(e Engine, tier string, batch uint64, lo, hi, stride int, deadline
 	out := &WorkerOut{Property: e.ID(), Probes: map[string]int{}, Faults: map[string]int{}, Extra: map[string]int{}}
 	bitmap := make([]byte, bitmapBits/8)
 	bySig := map[string]*FoundViolation{}
+	// crash/hang beacon: the coordinator reads the index of the run that was
+	// executing if this process dies (fatal runtime error) or is stopped by the
+	// watchdog below (a single execution running for more than 40 s)
+	var cur *os.File
+	if bitmapPath != "" {
+		cur, _ = os.Create(bitmapPath + ".cur")
+	}
+	var execStart int64 // unix nanos of the running execution, 0 = none
+	go func() {
+		for {
+			time.Sleep(2 * time.Second)
+			if t := atomic.LoadInt64(&execStart); t != 0 && time.Now().UnixNano()-t > int64(hangTimeout) {
+				os.Exit(77)
+			}
+		}
+	}()
+	realExec := e.Exec
+	e = timedEngine{e, func(s *Script, keep bool) *Result {
+		atomic.StoreInt64(&execStart, time.Now().UnixNano())
+		defer atomic.StoreInt64(&execStart, 0)
+		return realExec(s, keep)
+	}}
 	for idx := lo; idx < hi; idx += stride {
+		if cur != nil {
+			var b [8]byte
+			binary.LittleEndian.PutUint64(b[:], uint64(idx))
+			cur.WriteAt(b[:], 0)
+		}
 		if !deadline.IsZero() && time.Now().After(deadline) {
 			out.Extra["stopped_at_deadline"] = 1
 			break
@@ -109,7 +170,7 @@ func RunWorker(e Engine, tier string, batch uint64, lo, hi, stride int, deadline
 			}
 			var min *Script
 			var r2 *Result
-			if ps, ok := e.(ProcessStateful); ok && ps.ProcessStateful() {
+			if isProcessStateful(e) {
 				// confirm and minimise in fresh processes only
 				min, r2 = isolatedMinimize(s, sig, bitmapPath+".cand.json")
 				if min == nil {
@@ -123,7 +184,7 @@ func RunWorker(e Engine, tier string, batch uint64, lo, hi, stride int, deadline
 				min = Minimize(e, s, sig, 4000)
 				r2 = e.Exec(min, false)
 			}
-			if p, ok := e.(Pinner); ok && r2.Violation != nil {
+			if p, ok := asPinner(e); ok && r2.Violation != nil {
 				if pinned := p.Pin(min, r2); pinned != nil {
 					if r3 := e.Exec(pinned, false); r3.Violation != nil && r3.Violation.Signature == sig {
 						min, r2 = pinned, r3
@@ -241,6 +302,7 @@ func RunCheck(o CheckOptions) int {
 	}
 	outs := make([]*WorkerOut, workers)
 	errs := make([]string, workers)
+	deaths := make([]*death, workers)
 	var wg sync.WaitGroup
 	for k := 0; k < workers; k++ {
 		wg.Add(1)
@@ -256,6 +318,22 @@ func RunCheck(o CheckOptions) int {
 			cmd.Stderr = &stderr
 			cmd.Stdout = &stderr
 			if err := cmd.Run(); err != nil {
+				// a worker that hung (watchdog, exit 77) or died of a fatal runtime
+				// error was executing the run whose index is in its beacon file
+				kind := ""
+				if ee, ok := err.(*exec.ExitError); ok && ee.ExitCode() == 77 {
+					kind = "hang"
+				} else if i := strings.Index(stderr.String(), "fatal error: "); i >= 0 {
+					line := stderr.String()[i+len("fatal error: "):]
+					if j := strings.IndexByte(line, '\n'); j >= 0 {
+						line = line[:j]
+					}
+					kind = "crash:" + strings.ReplaceAll(normalisePanic(line), " ", "-")
+				}
+				if b, rerr := os.ReadFile(bmPath + ".cur"); kind != "" && rerr == nil && len(b) == 8 {
+					deaths[k] = &death{kind: kind, idx: int(binary.LittleEndian.Uint64(b))}
+					return
+				}
 				errs[k] = fmt.Sprintf("worker %d: %v\n%s", k, err, tail(stderr.String(), 4000))
 				return
 			}
@@ -357,6 +435,26 @@ func RunCheck(o CheckOptions) int {
 	if err != nil {
 		fmt.Fprintf(os.Stderr, "tabsim: HARNESS TROUBLE cannot read known_findings.json: %v\n", err)
 		trouble = true
+	}
+	for _, d := range deaths {
+		if d == nil {
+			continue
+		}
+		sig := o.Property + "/" + d.kind
+		s := GenScript(e, o.Seed, d.idx, o.Tier)
+		if old, ok := bySig[sig]; ok {
+			old.Count++
+			continue
+		}
+		fmt.Printf("tabsim: a worker stopped with %s while executing run %d; confirming and minimising in fresh processes\n", d.kind, d.idx)
+		min := minimizeDeath(o.Exe, s, sig, filepath.Join(workDir, "death.json"))
+		if min == nil {
+			fmt.Fprintf(os.Stderr, "tabsim: HARNESS TROUBLE run %d does not %s when executed alone in a fresh process\n", d.idx, d.kind)
+			trouble = true
+			continue
+		}
+		min.Expect = &Expect{Signature: sig, Detail: "the process executing this script did not survive: " + d.kind}
+		bySig[sig] = &FoundViolation{Signature: sig, Detail: min.Expect.Detail, Count: 1, FirstIdx: d.idx, OrigSteps: s.NSteps(), Script: min}
 	}
 	for _, rf := range raceFinds {
 		bySig[rf.sig] = &FoundViolation{Signature: rf.sig, Detail: rf.script.Expect.Detail, Count: rf.count, FirstIdx: rf.script.Index, OrigSteps: rf.script.NSteps(), Script: rf.script}
@@ -493,6 +591,21 @@ func RunReplay(path string, verbose bool) int {
 	}
 	if s.Cfg("race", 0) == 1 {
 		return replayRace(path, s)
+	}
+	if s.Expect != nil && isDeathSig(s.Expect.Signature) {
+		exe, _ := os.Executable()
+		got := execOutcome(exe, path, hangTimeout)
+		fmt.Printf("replay: property=%s seed=%d steps=%d outcome in a fresh process: %s\n", s.Property, s.Seed, s.NSteps(), got)
+		if s.Property+"/"+got == s.Expect.Signature {
+			fmt.Println("replay: REPRODUCED (same fatal outcome)")
+			fmt.Printf("VIOLATION property=%s replay=%s\n", s.Property, path)
+			return 1
+		}
+		if got == "ok" {
+			fmt.Println("replay: no violation")
+			return 0
+		}
+		return 3
 	}
 	res := e.Exec(s, true)
 	if verbose {
